@@ -195,7 +195,7 @@ AbsPh == [e \in Entry |->
             ELSE "pend"]
 AbsOut == [e \in Entry |-> IF waiter[e] = "done" THEN res[e] ELSE NoOut]
 Abs == INSTANCE NdnPit WITH
-          Front <- "v2", Envs <- {"bare"}, Junk <- {}, Defer <- {FALSE}, Races <- {{}}, Dev <- {},
+          Front <- "v2", Envs <- {"bare"}, Junk <- {}, Defer <- {FALSE}, Races <- {{}}, Reconn <- FALSE, Dev <- {},
           ph <- AbsPh, out <- AbsOut, vrun <- vtask,
           aw <- [e \in Entry |-> e <= used], held <- [e \in Entry |-> 0], buf <- [e \in Entry |-> NoOut]
 \* every behaviour of the structure is a behaviour of the observable specification (safety part)
